@@ -4,21 +4,25 @@ import os, sys
 import engines
 
 
-def keys_nontrivial(lines):
-    """A case in which keys were really extracted: the implementation returned
-    O (no error) - with >= 1 key, or with none, which only happens by fanning
-    out over an empty repeated field - or an error next to >= 1 partial key (a
-    repeated field was crossed before the error)."""
-    if not lines:
-        return False
-    parts = lines[0].split(";")
+def _line_nontrivial(line):
+    parts = line.split(";")
     ops = parts[0].split()
-    if len(parts) < 2 or len(ops) < 2 or ops[1] != "K":
+    if ops and ops[0] == "H":
+        ops = ops[1:]
+    if len(parts) < 2 or not ops or ops[0] != "K":
         return False
     out = parts[1].split()
     if len(out) < 2:
         return False
     return out[0] == "O" or (out[0] == "E" and int(out[1]) >= 1)
+
+
+def keys_nontrivial(lines):
+    """A history in which keys were really extracted by at least one call: the
+    implementation returned O (no error) - with >= 1 key, or with none, which
+    only happens by fanning out over an empty repeated field - or an error next
+    to >= 1 partial key (a repeated field was crossed before the error)."""
+    return any(_line_nontrivial(l) for l in lines)
 
 
 class KeysEngine(engines.HistEngine):
@@ -34,24 +38,56 @@ class KeysEngine(engines.HistEngine):
     props = {
         "C11": dict(
             monitor="c11",
-            rel={"panic", "error", "keys", "title", "split"},
+            rel={"panic", "error", "keys", "title", "split", "history"},
             quick=dict(VERIF_N="5000"),
             thorough=dict(VERIF_N="300000"),
             nontrivial=keys_nontrivial,
-            rule="cases = corpus + seeded random: a fresh reflect-built type per round (message-like 80% / arbitrary 20%, "
-                 "depth <= 6: strings, numbers, bools, chans, funcs, pointers incl. pointer-to-pointer, slices, arrays, "
-                 "maps, interfaces holding structs/pointers/strings, unexported '_x' fields, nil at every level with "
-                 "probability 0-50%) x 6 values x locators (65% derived from the value's shape, 35% mutated: too short/"
-                 "long, dropped/empty segment, '..', leading/trailing dot, wrong case, other separators, separator inside "
-                 "a segment, empty, unknown field, random bytes, non-ASCII) + 22% fixture rounds (hand-written types with "
-                 "unexported/embedded/interface-typed fields, named string types, generated protobuf messages ApiConfig/"
-                 "HelloRequest fresh and used) + N/10 direct comparisons each of strings.Title and strings.Split with the "
-                 "model; distinct by hash of the input line; non-trivial = the call returned keys without error (>= 1 key, "
-                 "or none via an empty repeated field) or an error after >= 1 collected key"),
+            rule="histories = one STATEFUL multi-event history run first in a pristine process (alternating calls on "
+                 "families of distinct Go types that print identically under reflect.Type.String() - same-named "
+                 "function-local types with different field order / missing fields / string vs non-string fields - "
+                 "interleaved with min(N/10,1000) random cases that are each run twice at different points) + corpus "
+                 "(incl. multi-event sequences) + seeded random single-call cases: a fresh reflect-built type per round "
+                 "(message-like 80% / arbitrary 20%, depth <= 6: strings, numbers, bools, chans, funcs, pointers incl. "
+                 "pointer-to-pointer, slices, arrays, maps, interfaces holding structs/pointers/strings, unexported '_x' "
+                 "fields, nil at every level with probability 0-50%) x 6 values x locators (65% derived from the value's "
+                 "shape, 35% mutated: too short/long, dropped/empty segment, '..', leading/trailing dot, wrong case, other "
+                 "separators, separator inside a segment, empty, unknown field, random bytes, non-ASCII) + 22% fixture "
+                 "rounds (hand-written types with unexported/embedded/interface-typed fields, named string types, twin "
+                 "types, generated protobuf messages ApiConfig/HelloRequest fresh and used) + N/10 direct comparisons each "
+                 "of strings.Title and strings.Split with the model + a 10% sample of the random cases re-run in shuffled "
+                 "order at the end of the process; every call is compared with the pure model/spec and any two calls with "
+                 "equal inputs in one run must return equal results (class 'history'); distinct by hash of the input "
+                 "lines; non-trivial = some call returned keys without error (>= 1 key, or none via an empty repeated "
+                 "field) or an error after >= 1 collected key"),
     }
 
     def run_impl(self, scratch, env, tag="t", timeout=3000):
-        rc, out, trace = engines.HistEngine.run_impl(self, scratch, env, tag=tag, timeout=timeout)
+        base = engines.HistEngine.run_impl
+        if tag == "shrink" and env.get("VERIF_HIST") and os.path.isfile(env["VERIF_HIST"]):
+            # Candidates of the delta debugger are histories that may depend on state
+            # left in the process by earlier calls: run each candidate in a process
+            # of its own, or an earlier candidate would pollute a later one.
+            cands, cur = [], None
+            for line in open(env["VERIF_HIST"]):
+                if line.startswith("H "):
+                    cur = []
+                    cands.append(cur)
+                if cur is not None and line.strip():
+                    cur.append(line)
+            if len(cands) > 1 and any(len(c) > 1 for c in cands):
+                trace = os.path.join(scratch, tag + ".trace")
+                with open(trace, "w") as out_f:
+                    for k, c in enumerate(cands):
+                        hp = os.path.join(scratch, "cand%d.hist" % k)
+                        open(hp, "w").write("".join(c))
+                        e = dict(env)
+                        e["VERIF_HIST"] = hp
+                        rc, out, tr = base(self, scratch, e, tag="cand%d" % k, timeout=timeout)
+                        if rc != 0:
+                            return rc, out, trace
+                        out_f.write(open(tr).read())
+                return 0, "", trace
+        rc, out, trace = base(self, scratch, env, tag=tag, timeout=timeout)
         stats = trace + ".stats"
         if tag == "t" and os.path.exists(stats):
             # input distribution of the main run (kinds, depths, outcomes per stream)
@@ -74,6 +110,9 @@ ASSUMPTIONS = {
         "(promotion rules of FieldByName) and locators with non-ASCII bytes",
         "the keys returned next to an error are not part of the property (no caller reads them); they are compared with "
         "the model under the divergence class 'errkeys', which is reported but is not a violation",
+        "history independence is checked on the calls of one test process: a stateful multi-event history in a pristine "
+        "process, every random case of its sample twice, 10% of the single-call cases again at the end; state that only "
+        "shows across processes or under concurrency is not exercised",
         "contents of protobuf's internal `state` field of a used message are not dumped (lower-case initial: unreachable "
         "by any locator, theorem C11_unexported_irrelevant)",
     ],
